@@ -6,6 +6,9 @@ CFG="$1"; OUT="$2"
 REPO="${VERIF_REPO:-/repo}"
 DRV=/verif/factdump/target/release/factdump
 [ -x "$DRV" ] || { echo "factdump driver not built (run setup_cmd)" >&2; exit 2; }
+# "<cfg>-rel": the same feature set compiled as a release build would be (no debug assertions)
+PROFILE_FLAGS=""
+case "$CFG" in *-rel) CFG="${CFG%-rel}"; PROFILE_FLAGS="-C debug-assertions=off" ;; esac
 case "$CFG" in
   ws)   FLAGS="-p retrofire-core -p retrofire-geom -F retrofire-core/std,retrofire-core/mm,retrofire-geom/std" ;;
   std)  FLAGS="-p retrofire-core -p retrofire-geom -F retrofire-core/std,retrofire-geom/std" ;;
@@ -21,7 +24,7 @@ mkdir -p "$OUT"
 SYSROOT=$(rustc +nightly --print sysroot)
 ( cd "$REPO" && \
   LD_LIBRARY_PATH="$SYSROOT/lib" \
-  RUSTFLAGS="-Zmir-opt-level=0 -Awarnings" \
+  RUSTFLAGS="-Zmir-opt-level=0 -Awarnings $PROFILE_FLAGS" \
   RUSTC_WORKSPACE_WRAPPER="$DRV" \
   FACTDUMP_OUT="$RAW" \
   CARGO_NET_OFFLINE=true \
